@@ -163,6 +163,11 @@ def confirm_known(run, k):
     return k.get("_hit", 0) > 0
 
 
+def _oracle_realep(case, impl):
+    from props.c11 import oracle_realep
+    return oracle_realep(case, impl)
+
+
 SPEC = dict(
         lean_module="NV.Props.C10",
         level_text="Kernel-checked theorems for every forwarder list, name and upstream behaviour: Match is invariant under ASCII case "
@@ -176,7 +181,8 @@ SPEC = dict(
                    "modelled. Rule domains with a '.' inside a label cannot be written in the text form and are out of scope (C06 finding). "
                    "Open finding: a rule for the root domain ('.=addr') matches only the root name (match_root_rule_only_root). The "
                    "case-insensitivity defect (DESIGN §7 #4) is repaired by a fix: commit and now proved (match_case_insensitive).",
-        areas=[dict(name="fwd", n_quick=120000, n_thorough=2400000, shards_thorough=8, oracle=oracle_fwd,
+        areas=[dict(name="realep", n_quick=25, n_thorough=400, shards_thorough=2, oracle=_oracle_realep, timeout=900),
+               dict(name="fwd", n_quick=120000, n_thorough=2400000, shards_thorough=8, oracle=oracle_fwd,
                     nontrivial=lambda c, i: "get=none" not in i and i not in ("0",))],
         confirm_known=confirm_known,
         trusted=COMMON_TRUST + ["translator /verif/extract (shape of the catch-all block in run.go)",
